@@ -112,7 +112,69 @@ def cases(tier, seed):
         # every order handed to the diagram; op sequences rotate through the models so that every sequence is used
         for oi, order in enumerate(orders):
             out.append(((future, classes), order, (mi + oi) % 1000, seq_len))
+    # handwritten models with generic bases (Role[T]) and classes below them, in every hand-over order
+    for si, (src, names) in enumerate(HANDWRITTEN):
+        orders = list(itertools.permutations(range(len(names))))
+        if tier == "quick":
+            orders = orders[::5]
+        for oi, order in enumerate(orders):
+            out.append((("src", si), order, (si * 7 + oi) % 1000, seq_len))
     return out
+
+
+HANDWRITTEN = [
+    ("""
+from dataclasses import dataclass, field
+from typing import List, Optional
+from krrood.class_diagrams.utils import Role
+
+@dataclass(eq=False)
+class P:
+    n: int = 0
+
+@dataclass(eq=False)
+class Dpt:
+    n: int = 0
+    staff: List['E'] = field(default_factory=list)
+
+@dataclass(eq=False)
+class E(Role[P]):
+    person: P = None
+    department: Optional[Dpt] = None
+
+@dataclass(eq=False)
+class M(E):
+    level: int = 0
+
+@dataclass(eq=False)
+class D(M):
+    budget: float = 0.0
+""", ("P", "Dpt", "E", "M", "D")),
+    ("""
+from __future__ import annotations
+from dataclasses import dataclass, field
+from typing import Generic, List, Optional, TypeVar
+from krrood.class_diagrams.utils import Role
+
+T = TypeVar("T")
+
+@dataclass(eq=False)
+class Box(Generic[T]):
+    n: int = 0
+
+@dataclass(eq=False)
+class IntBox(Box[int]):
+    m: int = 0
+
+@dataclass(eq=False)
+class SmallIntBox(IntBox):
+    owner: Optional[Keeper] = None
+
+@dataclass(eq=False)
+class Keeper:
+    boxes: List[IntBox] = field(default_factory=list)
+""", ("Box", "IntBox", "SmallIntBox", "Keeper")),
+]
 
 
 def all_op_sequences(n):
@@ -179,14 +241,21 @@ def run_case(case):
     from krrood.class_diagrams.class_diagram import ClassDiagram
     model, order, seq_index, seq_len = case
     res = CaseResult()
+    handwritten = model[0] == "src"
     try:
-        mod, cls_by_name, src = gen.load(model, prefix="vgen17")
+        if handwritten:
+            mod, cls_by_name, src = gen.load_source(*HANDWRITTEN[model[1]], prefix="vsrc17")
+        else:
+            mod, cls_by_name, src = gen.load(model, prefix="vgen17")
     except Exception as e:
         raise HarnessError(f"generated model does not import: {e}")
     try:
-        names = [c[0] for c in model[1]]
+        names = list(HANDWRITTEN[model[1]][1]) if handwritten else [c[0] for c in model[1]]
         classes = [cls_by_name[names[i]] for i in order]
-        label = f"model {[(c[0], c[1], [(f[0], f[1], f[2]) for f in c[2] if f[1] in RELS]) for c in model[1]]} future={model[0]} order={[names[i] for i in order]}"
+        if handwritten:
+            label = f"handwritten model #{model[1]} (classes {names}; generic bases) order={[names[i] for i in order]}"
+        else:
+            label = f"model {[(c[0], c[1], [(f[0], f[1], f[2]) for f in c[2] if f[1] in RELS]) for c in model[1]]} future={model[0]} order={[names[i] for i in order]}"
         try:
             d = ClassDiagram(classes)
         except Exception as e:
@@ -273,7 +342,10 @@ def run_case(case):
         res.outcome_key = (tuple(map(tuple, edges)),)
         if inh and assoc:
             res.nontrivial_key = case[:2]
-        res.features = {"classes:%d" % len(classes), "future" if model[0] else "plain"} | {f[1] for c in model[1] for f in c[2]}
+        if handwritten:
+            res.features = {"handwritten:%d" % model[1]}
+        else:
+            res.features = {"classes:%d" % len(classes), "future" if model[0] else "plain"} | {f[1] for c in model[1] for f in c[2]}
         if not res.failures and inh and assoc:
             res.sample = {"model": label, "edges": [list(e) for e in edges][:8]}
         return res
@@ -299,7 +371,7 @@ def cluster_key(case, f):
 
 def finish(run):
     if run.exhaustive and not run.failures:
-        for k in ("seq_ref", "type_ref", "set_ref", "future", "plain", "classes:3"):
+        for k in ("seq_ref", "type_ref", "set_ref", "future", "plain", "classes:3", "handwritten:0", "handwritten:1"):
             if not run.features.get(k):
                 raise HarnessError("vacuous: " + k)
 
